@@ -57,6 +57,12 @@ type Exec struct {
 	topStar bool
 	ghostSorts map[string]string
 	entryAlloc Term
+	noQuick bool
+	assumeSeen map[string]bool
+	assumeGuard []string
+	pcParents map[string][]string
+	topRets []retInfo
+	mapSeqs map[string]Term
 	topArgs []Value
 	recDefs map[string]bool
 	recBuilding map[string]bool
@@ -93,7 +99,16 @@ func (e *Exec) assume(st *State, fact Term) {
 		// inside a quantifier body assumptions cannot be global; they are dropped (sound)
 		return
 	}
-	e.assumptions = append(e.assumptions, "(assert "+tImp(st.pc, fact).S+")")
+	txt := "(assert " + tImp(st.pc, fact).S + ")"
+	if e.assumeSeen == nil {
+		e.assumeSeen = map[string]bool{}
+	}
+	if e.assumeSeen[txt] {
+		return
+	}
+	e.assumeSeen[txt] = true
+	e.assumptions = append(e.assumptions, txt)
+	e.assumeGuard = append(e.assumeGuard, st.pc.S)
 }
 
 func (e *Exec) assumeGlobal(fact Term) {
@@ -101,6 +116,7 @@ func (e *Exec) assumeGlobal(fact Term) {
 		return
 	}
 	e.assumptions = append(e.assumptions, "(assert "+fact.S+")")
+	e.assumeGuard = append(e.assumeGuard, "")
 }
 
 func (e *Exec) oblige(st *State, kind, name string, goal Term, where string) {
@@ -926,6 +942,9 @@ func (e *Exec) run(fn *ssa.Function, args []Value, bindings []Value, st *State, 
 			// handled in step (returns false)
 		}
 		_ = edgeCond
+	}
+	if e.depth == 1 && e.spec == 0 {
+		e.topRets = rets
 	}
 	if len(rets) == 0 {
 		return nil, nil
